@@ -55,6 +55,9 @@ def enumerate_cases(tier, scope):
     for fn in ('value', 'raise'):
         yield {'kind': 'rpc_plain', 'fn': fn}
         yield {'kind': 'rpc_plain', 'fn': fn, 'thread': True}
+    for method in ('continue', 'launch'):
+        for delivery in ('ok', 'failed'):
+            yield {'kind': 'noreply', 'method': method, 'delivery': delivery}
     for through in ('other', 'again'):
         yield {'kind': 'rewrap', 'through': through}
     for intent in ('play', 'pause', 'kill', 'other'):
@@ -379,6 +382,60 @@ def _run_comm_thread(case, v):
         asyncio.set_event_loop(None)
 
 
+def _run_noreply(case, v):
+    """A fire-and-forget task (no_reply=True) sent through the coroutine controller: the call returns None once the
+    communicator confirmed the delivery, and a delivery that failed reaches the caller as the exception it is."""
+    from plumpy import process_comms
+
+    class Broker:
+        def __init__(self):
+            self.sent = []
+            self.confirmations = []
+
+        def task_send(self, message, no_reply=False):
+            self.sent.append((message.get('task'), no_reply))
+            fut = kiwipy.Future()
+            self.confirmations.append(fut)
+            return fut
+
+    loop = StepLoop()
+    asyncio.set_event_loop(loop)
+    lost = getattr(kiwipy, 'DeliveryFailed', RuntimeError)('lost on the way')
+    try:
+        broker = Broker()
+        ctl = process_comms.RemoteProcessController(broker)
+        with loop.as_running():
+            if case['method'] == 'continue':
+                coro = ctl.continue_process(7, no_reply=True)
+            else:
+                coro = ctl.launch_process(Process, no_reply=True)
+            task = loop.create_task(coro)
+            task._pv_owned = True
+        loop.drain()
+        if task.done():
+            v('returned-before-confirmation', f"{case['method']}_process(no_reply=True) returned before the communicator confirmed the delivery")
+            return
+        with loop.as_running():
+            if case['delivery'] == 'ok':
+                broker.confirmations[0].set_result(None)
+            else:
+                broker.confirmations[0].set_exception(lost)
+        loop.drain()
+        got = _state(task)
+        if case['delivery'] == 'ok':
+            if got[0] != 'result' or got[1] is not None:
+                v('wrong-outcome', f'confirmed delivery: {got}')
+        elif got[0] != 'exception' or got[1] is not lost:
+            v('delivery-failure-lost', f"the delivery failed, but {case['method']}_process(no_reply=True) ended with {got}")
+        if broker.sent[0][1] is not True:
+            v('no-reply-flag-dropped', f'task_send was called with no_reply={broker.sent[0][1]}')
+    finally:
+        for task_ in loop.all_tasks:
+            task_._log_destroy_pending = False
+        loop.shutdown()
+        asyncio.set_event_loop(None)
+
+
 def _run_rewrap(case, v):
     """wrap_communicator() on a communicator that is already wrapped: the same wrapper for the same loop, a wrapper for the
     other loop otherwise - subscribers added through it run on the loop it was asked for."""
@@ -606,6 +663,10 @@ def execute(case):
         _run_rpc_plain(case, v)
         nontrivial = case['fn'] != 'value' or bool(case.get('thread'))
         classes = ['rpc_plain:' + case['fn'] + (':thread' if case.get('thread') else '')]
+    elif kind == 'noreply':
+        _run_noreply(case, v)
+        nontrivial = True
+        classes = ['noreply:' + case['method'] + ':' + case['delivery']]
     elif kind == 'rewrap':
         _run_rewrap(case, v)
         nontrivial = True
